@@ -17,7 +17,7 @@ import netCDF4
 import numpy as np
 from hypothesis import strategies as st
 
-from ..core import Result, exc_where, canon
+from ..core import Result, exc_where, canon, attempt
 from .. import spec as S
 from .. import agentB_ops as O
 from .. import libstate
@@ -604,7 +604,19 @@ def _check_op(case, keep):
         if ro:
             for _, x in inputs:
                 protect(x, False)
-        after = [S.snapshot(x, skip_attrs=VOLATILE) for _, x in inputs]
+        after = []
+        for what, x in inputs:
+            # an input that can no longer be inspected after the call (closed
+            # or invalidated by it) has been modified in the strongest sense
+            exc, snap = attempt(S.snapshot, x, skip_attrs=VOLATILE)
+            if exc is not None:
+                r.fail('input-unreadable', '%s can no longer be read after '
+                       '%s(%s): %s: %s' % (what, name, _short(call),
+                                           type(exc).__name__, exc),
+                       klass=klass + ('/' + what if what != 'receiver'
+                                      else ''))
+                return r
+            after.append(snap)
         for (what, _), b, a in zip(inputs, before, after):
             d = S.diff_snapshots(b, a)
             if d:
